@@ -49,6 +49,7 @@ SortEvViol(ev) ==
 
 Clauses(ev) ==
     CASE ev.e = "step"   -> StepViol(ev)
+      [] ev.e = "mstep"  -> Slots(ev.post) \cup ModelOpViol(ev.pre, ev.a, UidW(ev.pre, ev.post), ev.post)
       [] ev.e = "sort"   -> SortEvViol(ev)
       [] ev.e = "reload" -> IF ev.rc # 0 THEN {"ReloadFails"} ELSE ReloadViol(ev.pre, ev.post)
       [] ev.e = "fault"  -> V(ev.load = 0, "StillLoads") \cup
